@@ -158,17 +158,32 @@ def build(m, pas, table, stats):
     return layer, keep, {"sql": mat_sql, "rollups": rollups}
 
 
-def sweep(ck, rng, n, stats):
+BOUNDARIES = [1704067200, 1735689600, 1711929600, 1706745600, 1709251200, 1719792000, 1727740800]   # year / quarter / month starts (UTC)
+
+
+def sweep(ck, rng, n, stats, directed=False):
     cases, metas = [], []
     for _ in range(n):
         m = gen_model(rng)
         table = S.gen_table(rng, rng.choice([5, 13, 30]))
+        if directed:
+            # timestamps within a few days of period boundaries, so that a bucket of one granularity straddles another's
+            ci = table["cols"].index("created")
+            for r in table["rows"]:
+                r[ci] = E.ts(rng.choice(BOUNDARIES) + rng.choice([-3, -2, -1, 0, 1, 2, 3]) * 86400 + rng.choice([0, 3600, 86399]))
         pas = gen_preaggs(rng, m)
+        if directed:
+            for p in pas:
+                p["time_dimension"], p["granularity"] = "created", rng.choice(S.GRANS)
+                p["dimensions"] = [d for d in p["dimensions"] if d != "created"]
         layer, pas, mats = build(m, pas, table, stats)
         if layer is None:
             continue
         for _ in range(5):
             q = gen_query(rng, m, pas)
+            if directed:
+                q["dims"] = [d for d in q["dims"] if "created" not in d] + [f"{m['name']}.created__{rng.choice(S.GRANS)}"]
+                q["filters"], q["order_by"], q["limit"], q["offset"] = [f for f in q["filters"] if "created" not in canon(f)], [], None, None
             r1 = S.run_real(m, table, q, use_preaggregations=True, layer=layer); r1.pop("layer")
             r0 = S.run_real(m, table, q, use_preaggregations=False, layer=layer); r0.pop("layer")
             q_body = dict(q, limit=None, offset=None, order_by=[])
@@ -281,7 +296,8 @@ def run(ck: Check):
     if disagree == 0:
         ck.obligation("correspondence C08: materialization, routing decision, routed SQL and rows vs the Lean model", True, f"{stats['cases']} cases")
     if disagree or ck.broken:
-        sweep(ck, ck.rng, 300, stats)   # directed search = a wider sweep of the real-vs-real oracle
+        sweep(ck, ck.rng, 150, stats)                  # directed search: a wider sweep of the real-vs-real oracle ...
+        sweep(ck, ck.rng, 150, stats, directed=True)   # ... and time buckets straddling period boundaries at every granularity pair
     ck.coverage.update({
         "evaluations": stats["cases"], "distinct_nontrivial": stats["nontrivial"],
         "rule": "single model (table or sql-backed; dims status/region/bucket expr/created time with base granularity; 2-6 measures over sum/count/count(col)/avg/min/max/median/stddev/count_distinct, filtered or not, names following and violating the avg/count naming convention) x 1-3 pre-aggregations (subsets of measures and dimensions, time dimension at any of 6 granularities or none, time dimension listed as plain dimension) x 5 queries each (metrics/dims biased to a rollup, 0-2 granularities or bare time dimension, filters =,<>,IN,IS NULL,LIKE,BETWEEN on rollup and non-rollup columns and on the time dimension, OR groups, ORDER BY, LIMIT/OFFSET) x tables of 5-30 rows with multi-row buckets and NULLs",
